@@ -309,7 +309,16 @@ pub fn gen_group(rng: &mut Rng, u: &Universe, nvars: u32, depth: u32, scoped: bo
                 0 => GTerm::Var(rng.below(nvars as usize) as u32),
                 _ => GTerm::Named(if rng.chance(1, 8) { "urn:gmissing".to_string() } else { rng.pick(&u.graphs).clone() }),
             };
-            Pat::Graph(g, Box::new(gen_group(rng, u, nvars, depth - 1, scoped, fresh)))
+            let mut inner = gen_group(rng, u, nvars, depth - 1, scoped, fresh);
+            if rng.chance(1, 4) {
+                // GRAPH directly around a sub-select: the sub-select's fresh variable scope meets the graph scope
+                let mut vs = Vec::new();
+                pat_vars(&inner, &mut vs);
+                *fresh += 1;
+                let spec = gen_spec(rng, &vs, *fresh, false, false);
+                inner = Pat::Group(vec![Pat::Sub(spec, Box::new(inner))]);
+            }
+            Pat::Graph(g, Box::new(inner))
         } else if k < 80 {
             gen_group(rng, u, nvars, depth - 1, scoped, fresh)
         } else if k < 90 {
